@@ -81,7 +81,9 @@ RULE = ("paired runs of the real drivers on small planted low-rank problems (ord
         "{2,3,1/2,3/4,1000}, ranks that differ per mode, wrong matrix sizes and modes out of range, exactly against c18_scale_ttm. "
         "A mismatch above tolerance is a violation unless the same "
         "driver amplifies a 1e-13 / 1e-12 relative perturbation of the data (same representation) to within a factor 100 of "
-        "it (tag illcond). non-trivial = both runs returned a model, the problem has more than one cell per mode and "
+        "it (tag illcond); a dense / sparse pair of cp_apr runs that agrees in every number but not in the inner iteration counts is "
+        "not judged either when such a perturbation changes the counts too (some row stopped on a KKT value within rounding of "
+        "stoptol). non-trivial = both runs returned a model, the problem has more than one cell per mode and "
         "the two presentations really differ; distinct = distinct case hash")
 ASSUMPTIONS = [
     "IEEE rounding is not modelled: 'the same up to rounding' is measured as relative 1e-8 on small well-conditioned "
@@ -334,6 +336,25 @@ def sensitivity(alg, X, rep, case, **kw):
     return worst
 
 
+def inner_sensitivity(alg, X, rep, case, **kw):
+    """Control for a pair of cp_apr runs that agree in every number but not in the inner iteration counts: does a
+    rounding-sized perturbation of the data (same representation) change the counts too?  Then some row / mode stopped
+    on a KKT value within rounding of stoptol and the count is not a presentation-dependent result (-> 1.0, i.e.
+    ill-conditioned); otherwise the usual amplification."""
+    base = run_alg(alg, as_data(X, rep), case, **kw)
+    worst = 0.0
+    for t in range(16):
+        rs = _rs(case["dseed"] + 991 + t)
+        Xp = X * (1.0 + (1e-13 if t % 2 == 0 else 1e-12) * rs.standard_normal(X.shape))
+        r = run_alg(alg, as_data(Xp, rep), case, **kw)
+        if r.get("reject") or base.get("reject"):
+            return float("inf")
+        if r.get("inner") != base.get("inner"):
+            return 1.0
+        worst = max(worst, compare(base, r)[0])
+    return worst
+
+
 def factor_sensitivity(alg, X, rep, case, **kw):
     """the same control for the factor matrices / the core of a Tucker run"""
     base = run_alg(alg, as_data(X, rep), case, **kw)
@@ -545,10 +566,12 @@ class Repr(Family):
                                        "the other returns a model", impl, None, None, tags))
                 continue
             worst, what = compare(a, b)
+            control = sensitivity
             if worst <= TOL and alg.startswith("cp_apr") and a["inner"] != b["inner"]:
                 worst, what = float("inf"), f"inner iteration counts {a['inner']} vs {b['inner']}"
+                control = inner_sensitivity
             out.append(judge(worst, what, TOL, tags, f"{alg} dense vs sparse",
-                             lambda: sensitivity(alg, X, "dense", c, **kw), impl))
+                             lambda: control(alg, X, "dense", c, **kw), impl))
         return out
 
     def shrink(self, case):
